@@ -14,7 +14,7 @@ GEN_FOR = SourceFileLoader("vcheck", os.path.join(ROOT, "check")).load_module().
 GEN_WHAT = {
     "ParserGenEq": "parser loops, parseField, ParseList/ParseObject", "StrGenEq": "unquoteJSON, quoteJSON, ParseFile",
     "TreeFormGenEq": "tree-form methods, serialize(), FormatString", "ListGenEq": "63 list methods", "ListGen2Eq": "Filter*, Min/Max, NewListFrom",
-    "ObjectGenEq": "41 object methods, parseVal, native", "CloneGenEq": "copy/isEqual/Clone/Equals (refinement)",
+    "ObjectGenEq": "41 object methods, parseVal, native", "CloneGenEq": "copy/isEqual/Clone/Equals (refinement)", "IntsInvariantL": "stored ints stay in range under every list operation, so the Filter equalities hold on reachable heaps", "IntsInvariantO": "the same for object operations, clone, tree-form writes and parser output",
     "Async": "skeletons of the four async methods", "WriteSet": "write sets of every method", "Api": "classification of every interface method",
 }
 def gen_text(pid):
@@ -39,7 +39,7 @@ for p in props:
         "level_claimed": {"category": "proof",
                           "text": "Lean 4 theorems (lean/Anytype/Props/%s.lean) about an executable model of the code, for all inputs/states/histories with no bound; the model is tied to /repo on every run in two ways: (1) translators regenerate Lean definitions from the current Go source of the functions the property rests on and their equality with (or refinement of) the model is re-proved by the kernel — %s; (2) a correspondence run re-executes the recorded behaviour of the real library on the same Lean definitions, and the property's specification is evaluated as a monitor on the implementation's own outputs" % (pid, gen_text(pid)),
                           "design_ref": "DESIGN.md §6-%s" % pid},
-        "level_note": NOTES.get(pid, "trusted: Lean kernel (axioms propext, Classical.choice, Quot.sound only, audited per run); the translators' reading of Go (restructuring rules listed at the top of harness/cmd/vextract/*.go); for functions that are not translated and for the Go standard library the model<->implementation tie is sampled, not proved; Go stdlib is modelled (stdlib-conformance stratum on every run); explicit hypotheses in theorem statements stand for unverified library behaviour (e.g. FmtContract for shortest float formatting)"),
+        "level_note": NOTES.get(pid, "trusted: Lean kernel (axioms propext, Classical.choice, Quot.sound only, audited per run); the translators' reading of Go (restructuring rules listed at the top of harness/cmd/vextract/*.go); for functions that are not translated and for the Go standard library the model<->implementation tie is sampled, not proved; Go stdlib is modelled (stdlib-conformance stratum on every run); explicit hypotheses in theorem statements stand for unverified library behaviour (sort returns a sorted permutation, FloatArith order laws, the goroutine LTS; the float-formatting contract is proved, not assumed)"),
         "technique": "Lean 4 proof over an executable model + model regenerated from source by a translator with equality/refinement re-proved on every run + differential correspondence check (Go harness -> compiled Lean driver) + specification monitors",
     })
 m = {"version": 1, "setup_cmd": "./check --setup",
